@@ -273,7 +273,13 @@ def lossy_ops(body, sl):
                 if any(tail.startswith(x) for x in ("std::collections::BTreeMap<", "std::collections::HashMap<", "std::collections::HashSet<", "std::collections::BTreeSet<")):
                     out.append(("collect-into-%s" % tail.split("<")[0].rsplit("::", 1)[-1], bb))
         if last == "insert" and any(x in c for x in ("BTreeMap", "HashMap", "DashMap")):
-            out.append(("map-insert", min(bbs) if bbs else None))
+            # a single insert into a fresh map outside any loop cannot overwrite; inside a loop / closure it can
+            from . import cfg as _cfg
+            loopb = set()
+            for t_, h in _cfg.natural_loops(body):
+                loopb |= _cfg.loop_blocks(body, t_, h)
+            if not bbs or any(x in loopb for x in bbs):
+                out.append(("map-insert", min(bbs) if bbs else None))
     return out
 
 
